@@ -23,19 +23,38 @@ package anchoring
 //@   nopanic
 //@   ensures [zero_coefficient_never_replaces_nonzero] result <==> !(b.coefficient == 0.0 && a.coefficient != 0.0)
 
-// the comparators the two evaluators hand to findBest: ideal replaces on "new is better", nadir on "new is not better"
+// the comparators the two evaluators hand to findBest: ideal replaces on "new is at least as good", nadir on "new is worse"
+//@ spec notWorse(c model.Criterion, a valueWithCoefficient, b valueWithCoefficient) bool =
+//@      c.Type != model.Cost ? (a.value * a.coefficient == b.value * b.coefficient ? a.value <= b.value : a.value * a.coefficient < b.value * b.coefficient)
+//@                           : (a.value * b.coefficient == b.value * a.coefficient ? a.value >= b.value : a.value * b.coefficient > b.value * a.coefficient)
+//@ spec mayReplace(a valueWithCoefficient, b valueWithCoefficient) bool = !(b.coefficient == 0.0 && a.coefficient != 0.0)
 //@ func (*IdealReferenceAlternativeEvaluator).Evaluate$1
 //@   property C19
 //@   nopanic
-//@   ensures [ideal_takes_the_better] a.coefficient > 0.0 && b.coefficient > 0.0 ==> (result <==>
-//@             (c.Type != model.Cost ? (a.value * a.coefficient == b.value * b.coefficient ? a.value <= b.value : a.value * a.coefficient < b.value * b.coefficient)
-//@                                   : (a.value * b.coefficient == b.value * a.coefficient ? a.value >= b.value : a.value * b.coefficient > b.value * a.coefficient)))
+//@   ensures [ideal_takes_the_better] result <==> (mayReplace(a, b) && notWorse(*c, a, b))
 //@ func (*NadirReferenceAlternativeEvaluator).Evaluate$1
 //@   property C19
 //@   nopanic
-//@   ensures [nadir_takes_the_worse] a.coefficient > 0.0 && b.coefficient > 0.0 ==> (result <==>
-//@             !(c.Type != model.Cost ? (a.value * a.coefficient == b.value * b.coefficient ? a.value <= b.value : a.value * a.coefficient < b.value * b.coefficient)
-//@                                    : (a.value * b.coefficient == b.value * a.coefficient ? a.value >= b.value : a.value * b.coefficient > b.value * a.coefficient)))
+//@   ensures [nadir_takes_the_worse] result <==> (mayReplace(a, b) && !notWorse(*c, a, b))
+
+// the two comparators are orders in the sense findBest needs (nonlinear real arithmetic; positive coefficients)
+//@ lemma [C19] ideal_comparator_is_an_order: forall c model.Criterion, x valueWithCoefficient, y valueWithCoefficient, z valueWithCoefficient
+//@   requires x.coefficient > 0.0 && y.coefficient > 0.0 && z.coefficient > 0.0
+//@   requires notWorse(c, x, y) && notWorse(c, y, z) && !notWorse(c, z, y)
+//@   ensures  notWorse(c, x, z) && !notWorse(c, z, x)
+//@ lemma [C19] nadir_comparator_is_an_order: forall c model.Criterion, x valueWithCoefficient, y valueWithCoefficient, z valueWithCoefficient
+//@   requires x.coefficient > 0.0 && y.coefficient > 0.0 && z.coefficient > 0.0
+//@   requires !notWorse(c, x, y) && !notWorse(c, y, z) && notWorse(c, z, y)
+//@   ensures  !notWorse(c, x, z) && notWorse(c, z, x)
+// what "not strictly preferred" means on the weighted scale
+//@ lemma [C19] ideal_is_weighted_maximum: forall c model.Criterion, b valueWithCoefficient, w valueWithCoefficient
+//@   requires b.coefficient > 0.0 && w.coefficient > 0.0 && !(notWorse(c, b, w) && !notWorse(c, w, b))
+//@   ensures  c.Type != model.Cost ==> b.value * b.coefficient >= w.value * w.coefficient
+//@   ensures  c.Type == model.Cost ==> b.value / b.coefficient <= w.value / w.coefficient
+//@ lemma [C19] nadir_is_weighted_minimum: forall c model.Criterion, b valueWithCoefficient, w valueWithCoefficient
+//@   requires b.coefficient > 0.0 && w.coefficient > 0.0 && !(!notWorse(c, b, w) && notWorse(c, w, b))
+//@   ensures  c.Type != model.Cost ==> b.value * b.coefficient <= w.value * w.coefficient
+//@   ensures  c.Type == model.Cost ==> b.value / b.coefficient >= w.value / w.coefficient
 
 // fromAnchors: a value-with-coefficient is the value and coefficient of one of the anchoring alternatives on criterion q
 //@ pred fromAnchors(x valueWithCoefficient, alts []AnchoringAlternativeWithCriteria, q string, n int) =
@@ -58,27 +77,51 @@ package anchoring
 //@   loop 1 invariant [copied] forall q string :: seen(q) ==> (q in result && result[q] == (*best)[q].value)
 //@   loop 1 invariant [only] forall q string :: q in result ==> seen(q)
 
+// ordering(f): replacing the running value whenever f(old, new) holds keeps a value no anchor is strictly preferred to,
+// provided f behaves like "new is at least as good" of a total preorder (ideal) or "new is strictly worse" (nadir):
+// if y replaces x and z is strictly preferred to y, then z is strictly preferred to x.  (coefficients positive)
+//@ pred atCriterion(w valueWithCoefficient, alt AnchoringAlternativeWithCriteria, c model.Criterion) = w.value == alt.Alternative.Criteria[c.Id] && w.coefficient == alt.Coefficient
+
 //@ func findBestCriteriaValues
 //@   property C19
 //@   fnparam isBetter pure
 //@   requires len(*alternatives) >= 1 && *best != nil
 //@   requires [starts_from_anchors] forall q string :: q in *best ==> fromAnchors((*best)[q], *alternatives, q, 1)
+//@   requires [positive_coefficients] forall k int :: 0 <= k && k < len(*alternatives) ==> (*alternatives)[k].Coefficient > 0.0
+//@   requires [distinct_criteria] model.distinctCriteria(*criteria)
+//@   requires [comparator_is_an_order] forall c model.Criterion, x valueWithCoefficient, y valueWithCoefficient, z valueWithCoefficient ::
+//@             x.coefficient > 0.0 && y.coefficient > 0.0 && z.coefficient > 0.0 && apply(isBetter, c, x, y) && apply(isBetter, c, y, z) && !apply(isBetter, c, z, y)
+//@             ==> apply(isBetter, c, x, z) && !apply(isBetter, c, z, x)
 //@   assigns *best
 //@   ensures [same_criteria] forall q string :: (q in *best <==> old(q in *best))
 //@   ensures [among_the_anchors] forall q string :: q in *best ==> fromAnchors((*best)[q], *alternatives, q, len(*alternatives))
-//@   loop 1 invariant [ctx] 1 <= i && i <= len(*alternatives) && unchanged(*alternatives) && *best == old(*best)
+//@   ensures [no_anchor_strictly_preferred] forall j int, k int, w valueWithCoefficient :: 0 <= j && j < len(*criteria) && 0 <= k && k < len(*alternatives) && (*criteria)[j].Id in *best && atCriterion(w, (*alternatives)[k], (*criteria)[j])
+//@             ==> !(apply(isBetter, (*criteria)[j], (*best)[(*criteria)[j].Id], w) && !apply(isBetter, (*criteria)[j], w, (*best)[(*criteria)[j].Id]))
+//@   loop 1 invariant [ctx] 1 <= i && i <= len(*alternatives) && unchanged(*alternatives) && *best == old(*best) && unchanged(*criteria)
 //@   loop 1 invariant [same_criteria] forall q string :: (q in *best <==> old(q in *best))
 //@   loop 1 invariant [among] forall q string :: q in *best ==> fromAnchors((*best)[q], *alternatives, q, i)
-//@   loop 2 invariant [ctx] 1 <= i && i < len(*alternatives) && alt == (*alternatives)[i] && unchanged(*alternatives) && *best == old(*best)
+//@   loop 1 invariant [none_preferred] forall j int, k int, w valueWithCoefficient :: 0 <= j && j < len(*criteria) && 0 <= k && k < i && (*criteria)[j].Id in *best && atCriterion(w, (*alternatives)[k], (*criteria)[j])
+//@             ==> !(apply(isBetter, (*criteria)[j], (*best)[(*criteria)[j].Id], w) && !apply(isBetter, (*criteria)[j], w, (*best)[(*criteria)[j].Id]))
+//@   loop 2 invariant [ctx] 1 <= i && i < len(*alternatives) && alt == (*alternatives)[i] && unchanged(*alternatives) && *best == old(*best) && unchanged(*criteria)
 //@   loop 2 invariant [same_criteria] forall q string :: (q in *best <==> old(q in *best))
 //@   loop 2 invariant [among] forall q string :: q in *best ==> fromAnchors((*best)[q], *alternatives, q, i + 1)
+//@   loop 2 invariant [none_preferred] forall j int, k int, w valueWithCoefficient :: 0 <= j && j < len(*criteria) && 0 <= k && (k < i || (k == i && j < iter)) && (*criteria)[j].Id in *best && atCriterion(w, (*alternatives)[k], (*criteria)[j])
+//@             ==> !(apply(isBetter, (*criteria)[j], (*best)[(*criteria)[j].Id], w) && !apply(isBetter, (*criteria)[j], w, (*best)[(*criteria)[j].Id]))
 
 //@ func findBest
 //@   property C19
 //@   fnparam isBetter pure
+//@   requires [positive_coefficients] forall k int :: 0 <= k && k < len(*alternatives) ==> (*alternatives)[k].Coefficient > 0.0
+//@   requires [distinct_criteria] model.distinctCriteria(*criteria)
+//@   requires [comparator_is_an_order] forall c model.Criterion, x valueWithCoefficient, y valueWithCoefficient, z valueWithCoefficient ::
+//@             x.coefficient > 0.0 && y.coefficient > 0.0 && z.coefficient > 0.0 && apply(isBetter, c, x, y) && apply(isBetter, c, y, z) && !apply(isBetter, c, z, y)
+//@             ==> apply(isBetter, c, x, z) && !apply(isBetter, c, z, x)
 //@   ensures [one_point_named_after_the_strategy] fresh(result) && len(result) == 1 && result[0].Id == name
 //@   ensures [per_criterion_value_of_an_anchor] forall q string :: (q in result[0].Criteria <==> q in (*alternatives)[0].Alternative.Criteria)
 //@             && (q in result[0].Criteria ==> exists k int :: 0 <= k && k < len(*alternatives) && q in (*alternatives)[k].Alternative.Criteria && result[0].Criteria[q] == (*alternatives)[k].Alternative.Criteria[q])
+//@   ensures [no_anchor_strictly_preferred] forall j int :: 0 <= j && j < len(*criteria) && (*criteria)[j].Id in (*alternatives)[0].Alternative.Criteria ==>
+//@             exists b valueWithCoefficient :: b.value == result[0].Criteria[(*criteria)[j].Id] && b.coefficient > 0.0 && forall k int, w valueWithCoefficient :: 0 <= k && k < len(*alternatives) && atCriterion(w, (*alternatives)[k], (*criteria)[j])
+//@                ==> !(apply(isBetter, (*criteria)[j], b, w) && !apply(isBetter, (*criteria)[j], w, b))
 
 // ---- gains and losses against a reference point (C19)
 
@@ -140,3 +183,81 @@ package anchoring
 //@             && scaleRatios[(*criteria)[k].Id].Scale == (scaleRatios[(*criteria)[k].Id].ValuesRange.Max - scaleRatios[(*criteria)[k].Id].ValuesRange.Min != 0.0 ? 1.0 / (scaleRatios[(*criteria)[k].Id].ValuesRange.Max - scaleRatios[(*criteria)[k].Id].ValuesRange.Min) : 0.0)
 //@             && ((*criteria)[k].ValuesRange != nil ==> scaleRatios[(*criteria)[k].Id].ValuesRange == *(*criteria)[k].ValuesRange)
 //@   loop 1 invariant [only] forall q string :: q in scaleRatios ==> exists k int :: 0 <= k && k < iter && (*criteria)[k].Id == q
+
+// ---- the inline applier (C19)
+
+// csum: the sum of the mapped differences of criterion q over the first n reference points
+//@ spec csum(points []ReferencePointDifference, q string, n int) real = n <= 0 ? 0.0 : csum(points, q, n - 1) + points[n - 1].Coefficients[q]
+//@ pred sameKeys(points []ReferencePointDifference) = forall k int, q string :: 0 <= k && k < len(points) ==> (q in points[k].Coefficients <==> q in points[0].Coefficients)
+
+//@ func arithmeticAverage
+//@   property C19
+//@   requires len(points) >= 1 && sameKeys(points)
+//@   ensures [mean_over_reference_points] fresh(result) && fresh(*result) && forall q string :: (q in *result <==> q in points[0].Coefficients)
+//@             && (q in *result ==> (*result)[q] == old(csum(points, q, len(points))) / real(len(points)))
+//@   ensures [input_untouched] unchanged(points)
+//@   loop 1 invariant [ctx] fresh(newWeights) && newWeights != nil && unchanged(points)
+//@   loop 1 invariant [sums] forall q string :: (iter == 0 ==> !(q in newWeights)) && (iter >= 1 ==> (q in newWeights <==> q in points[0].Coefficients) && (q in newWeights ==> newWeights[q] == old(csum(points, q, iter))))
+//@   loop 2 invariant [ctx] fresh(newWeights) && newWeights != nil && unchanged(points) && 0 <= i && i < len(points) && a == points[i]
+//@   loop 2 invariant [added] forall q string :: seen(q) ==> q in newWeights && newWeights[q] == old(csum(points, q, i + 1))
+//@   loop 2 invariant [pending] forall q string :: !seen(q) ==> (i == 0 ==> !(q in newWeights)) && (i >= 1 ==> (q in newWeights <==> q in points[0].Coefficients) && (q in newWeights ==> newWeights[q] == old(csum(points, q, i))))
+//@   loop 2 invariant [maps_untouched] forall k int, q string :: 0 <= k && k < len(points) ==> (q in points[k].Coefficients <==> old(q in points[k].Coefficients)) && points[k].Coefficients[q] == old(points[k].Coefficients[q])
+//@   loop 2 invariant [visited_are_keys] forall q string :: seen(q) ==> q in points[0].Coefficients
+//@   loop 3 invariant [ctx] fresh(newWeights) && newWeights != nil && unchanged(points) && referencePointsCount == real(len(points))
+//@   loop 3 invariant [keys] forall q string :: (q in newWeights <==> q in points[0].Coefficients)
+//@   loop 3 invariant [divided] forall q string :: q in newWeights ==> newWeights[q] == (seen(q) ? old(csum(points, q, len(points))) / real(len(points)) : old(csum(points, q, len(points))))
+
+//@ spec avgOf(points []ReferencePointDifference, q string) real = csum(points, q, len(points)) / real(len(points))
+
+// anchored: the new alternative and the reported difference for one alternative's reference-point differences:
+// new = bounding(old + range x mean mapped difference) on every scaled criterion, reported = new - old
+//@ pred anchored(nw model.AlternativeWithCriteria, df model.AlternativeWithCriteria, p ReferencePointsDifference, bws BoundingsWithScales) =
+//@      nw.Id == p.Alternative.Id && df.Id == p.Alternative.Id && forall c string :: c in bws ==> c in nw.Criteria && c in df.Criteria
+//@   && nw.Criteria[c] == criteria_bounding.boundedIn(*bws[c].bounding, p.Alternative.Criteria[c] + (bws[c].scaling.ValuesRange.Max - bws[c].scaling.ValuesRange.Min) * old(avgOf(p.ReferencePointsDifference, c)))
+//@   && df.Criteria[c] == nw.Criteria[c] - p.Alternative.Criteria[c]
+
+//@ func (*InlineAnchoringApplier).ApplyAnchoring
+//@   property C19
+//@   requires [inline_params] typeis(params, *InlineAnchoringApplierParams)
+//@   requires [diffs_per_reference_point] forall k int :: 0 <= k && k < len(*perReferencePointDiffs) ==> len((*perReferencePointDiffs)[k].ReferencePointsDifference) >= 1 && sameKeys((*perReferencePointDiffs)[k].ReferencePointsDifference)
+//@   ensures [criteria_and_parameters_pass_through] fresh(result0) && result0.Criteria == dmp.Criteria && result0.MethodParameters == dmp.MethodParameters
+//@   ensures [considered_are_anchored] len(result0.ConsideredAlternatives) == len(dmp.ConsideredAlternatives) && forall j int :: 0 <= j && j < len(dmp.ConsideredAlternatives) ==>
+//@             result0.ConsideredAlternatives[j].Id == dmp.ConsideredAlternatives[j].Id && exists k int :: 0 <= k && k < len(*perReferencePointDiffs) && (*perReferencePointDiffs)[k].Alternative.Id == dmp.ConsideredAlternatives[j].Id
+//@             && forall c string :: c in boundingsWithScales ==> c in result0.ConsideredAlternatives[j].Criteria && result0.ConsideredAlternatives[j].Criteria[c] ==
+//@                  criteria_bounding.boundedIn(*boundingsWithScales[c].bounding, (*perReferencePointDiffs)[k].Alternative.Criteria[c]
+//@                     + (boundingsWithScales[c].scaling.ValuesRange.Max - boundingsWithScales[c].scaling.ValuesRange.Min) * old(avgOf((*perReferencePointDiffs)[k].ReferencePointsDifference, c)))
+//@   ensures [others_only_if_asked] !params.(*InlineAnchoringApplierParams).ApplyOnNotConsidered ==> result0.NotConsideredAlternatives == dmp.NotConsideredAlternatives
+//@   ensures [report_type] typeis(result1, InlineAnchoringApplierResult)
+//@   loop 1 invariant [ctx] fresh(newAlternatives) && fresh(appliedDifferences) && len(newAlternatives) == len(*perReferencePointDiffs) && len(appliedDifferences) == len(*perReferencePointDiffs)
+//@   loop 1 invariant [done] forall k int :: 0 <= k && k < iter ==> anchored(newAlternatives[k], appliedDifferences[k], (*perReferencePointDiffs)[k], boundingsWithScales)
+//@   loop 2 invariant [ctx] fresh(differences) && differences != nil && 0 <= $i && $i < len(*perReferencePointDiffs) && p == (*perReferencePointDiffs)[$i]
+//@   loop 2 invariant [ctx2] fresh(newWeights) && newWeights != nil
+//@   loop 2 invariant [done] forall c string :: seen(c) ==> c in newWeights && c in differences
+//@             && newWeights[c] == criteria_bounding.boundedIn(*boundingsWithScales[c].bounding, p.Alternative.Criteria[c] + (boundingsWithScales[c].scaling.ValuesRange.Max - boundingsWithScales[c].scaling.ValuesRange.Min) * old(avgOf(p.ReferencePointsDifference, c)))
+//@             && differences[c] == newWeights[c] - p.Alternative.Criteria[c]
+//@   loop 2 invariant [pending] forall c string :: !seen(c) ==> (c in newWeights <==> c in p.ReferencePointsDifference[0].Coefficients) && (c in newWeights ==> newWeights[c] == old(avgOf(p.ReferencePointsDifference, c)))
+//@   loop 2 invariant [only] forall c string :: c in differences ==> seen(c)
+//@   loop 2 invariant [visited_are_scaled] forall c string :: seen(c) ==> c in boundingsWithScales
+
+
+// ---- the two reference-point strategies (C19): per criterion the coefficient-weighted best (ideal) / worst (nadir) anchor value
+//@ func (*IdealReferenceAlternativeEvaluator).Evaluate
+//@   property C19
+//@   requires [positive_coefficients] forall k int :: 0 <= k && k < len(*alternatives) ==> (*alternatives)[k].Coefficient > 0.0
+//@   requires [distinct_criteria] model.distinctCriteria(*criteria)
+//@   ensures [one_point] fresh(result) && len(result) == 1 && result[0].Id == "ideal"
+//@   ensures [per_criterion_value_of_an_anchor] forall q string :: (q in result[0].Criteria <==> q in (*alternatives)[0].Alternative.Criteria)
+//@             && (q in result[0].Criteria ==> exists k int :: 0 <= k && k < len(*alternatives) && q in (*alternatives)[k].Alternative.Criteria && result[0].Criteria[q] == (*alternatives)[k].Alternative.Criteria[q])
+//@   ensures [coefficient_weighted_best] forall j int :: 0 <= j && j < len(*criteria) && (*criteria)[j].Id in (*alternatives)[0].Alternative.Criteria ==>
+//@             exists b valueWithCoefficient :: b.value == result[0].Criteria[(*criteria)[j].Id] && b.coefficient > 0.0 && forall k int, w valueWithCoefficient :: 0 <= k && k < len(*alternatives) && atCriterion(w, (*alternatives)[k], (*criteria)[j])
+//@                ==> !(notWorse((*criteria)[j], b, w) && !notWorse((*criteria)[j], w, b))
+//@ func (*NadirReferenceAlternativeEvaluator).Evaluate
+//@   property C19
+//@   requires [positive_coefficients] forall k int :: 0 <= k && k < len(*alternatives) ==> (*alternatives)[k].Coefficient > 0.0
+//@   requires [distinct_criteria] model.distinctCriteria(*criteria)
+//@   ensures [one_point] fresh(result) && len(result) == 1 && result[0].Id == "nadir"
+//@   ensures [per_criterion_value_of_an_anchor] forall q string :: (q in result[0].Criteria <==> q in (*alternatives)[0].Alternative.Criteria)
+//@             && (q in result[0].Criteria ==> exists k int :: 0 <= k && k < len(*alternatives) && q in (*alternatives)[k].Alternative.Criteria && result[0].Criteria[q] == (*alternatives)[k].Alternative.Criteria[q])
+//@   ensures [coefficient_weighted_worst] forall j int :: 0 <= j && j < len(*criteria) && (*criteria)[j].Id in (*alternatives)[0].Alternative.Criteria ==>
+//@             exists b valueWithCoefficient :: b.value == result[0].Criteria[(*criteria)[j].Id] && b.coefficient > 0.0 && forall k int, w valueWithCoefficient :: 0 <= k && k < len(*alternatives) && atCriterion(w, (*alternatives)[k], (*criteria)[j])
+//@                ==> !(!notWorse((*criteria)[j], b, w) && notWorse((*criteria)[j], w, b))
